@@ -31,7 +31,7 @@ pub fn spec(id: &str) -> Option<PropSpec> {
     Some(match id {
         "C01" => PropSpec {
             id: "C01",
-            batches: vec![b("bdd", 60_000, 3_000_000, true)],
+            batches: vec![b("bdd", 60_000, 3_000_000, true), b("bddbig", 0, 200, false)],
             rule: "one case = one seeded run: a generated history of 10-300 builder operations by 1-4 logical callers on one RobddBuilder (random order, cache kind, capacities, fault rates, placement). Distinct = distinct event-log hash (the log contains every result's truth table and raw node address and every fault fired). Non-trivial = at least one non-constant result AND at least one fault fired or table growth / displacement / lossy-cache overwrite happened.",
             states_measure: "distinct truth tables (Boolean functions over <= 7 variables) produced as results",
             probe_prefixes: &["Ite", "BddIte", "BddCond", "BddGet", "Table", "Lru"],
@@ -45,7 +45,7 @@ pub fn spec(id: &str) -> Option<PropSpec> {
         },
         "C02" => PropSpec {
             id: "C02",
-            batches: vec![b("table", 40_000, 2_000_000, false), b("bdd", 50_000, 2_000_000, true)],
+            batches: vec![b("table", 40_000, 2_000_000, false), b("bdd", 50_000, 2_000_000, true), b("bddbig", 16, 600, false)],
             rule: "bdd world: as C01, plus canonicity map, node-shape checks, sub-diagram canonicity, end-of-run re-lookup of every live node; table world: one case = a history of get_or_insert/grow/get_by_hash/iter calls on the real robin-hood table with simulator-chosen hash values (uniform, clustered at slot 0, at the last slots, all equal, pointer-like), capacities 1..64 and the shipped 131072 (>= 91751 keys). Distinct = distinct event-log hash. Non-trivial: bdd as C01; table = at least 2 distinct keys stored.",
             states_measure: "distinct truth tables produced (bdd world) / distinct final key counts (table world)",
             probe_prefixes: &["Table", "BddGet", "BddIte", "BddCond", "Ite"],
